@@ -224,6 +224,12 @@ theorem C17_xz_run_compresses_any_check (c : XzW.Cfg) (hc : XzW.CfgOk c) (hd : 6
     (XzW.run c HT.HT4 (HT.St.new c.w2.dictCap c.w2.bufSize) [RunCost.runOf b n]).size ≤ n / 500 + 128 + 64 :=
   RunCost.xz_run_compresses_full c hc hd b n hblk hn
 
+/-- the xz writer model with BinaryTree, one block: inside 128 + 64 for no check, CRC32 and CRC64 (117 + 63 + check) -/
+theorem C17_xz_run_compresses_bintree (c : XzW.Cfg) (hc : XzW.CfgOk c) (hd : 65536 ≤ c.w2.dictCap) (b : UInt8) (n : Nat)
+    (hblk : n ≤ c.blockSize) (hn : n < 2 ^ 40) (hck : (Xz.checkSize c.flags).getD 0 ≤ 12) :
+    (XzW.run c BT.BT4 (BT.St.new c.w2.dictCap c.w2.bufSize) [RunCost.runOf b n]).size ≤ n / 500 + 128 + 64 :=
+  RunCost.xz_run_compresses_192_bt c hc hd b n hblk hn hck
+
 /-- the hypotheses are satisfiable: CRC64 (flags 4) has an 8-byte check -/
 example : (Xz.checkSize 4).getD 0 ≤ 17 := by decide
 
